@@ -3,4 +3,4 @@ import Aergo.Model.ChainDriver
 /-! Model driver for C07: `model-c07 < ops > out`. The two properties share the model `Aergo.Chain`, the harness
 machinery (harness/c05lib) and this session step function (`C05Drv.step`). -/
 
-def main : IO UInt32 := Aergo.DriverLib.run (none : Option Aergo.Chain.Node) C05Drv.step
+def main : IO UInt32 := Aergo.DriverLib.run (none : Option C05Drv.Sess) C05Drv.step
